@@ -6,6 +6,13 @@ CLASSES = {'elastic_ctor', 'elastic_stress', 'elastic_strain', 'model_stub', 'el
 
 def run(tier):
     chk = C.Check('C12', tier)
+    mc = C.run_tlc('MC_Elastic', 'MC_Elastic.cfg', workers=8, timeout=900)
+    chk.add_tlc('MC_Elastic(the relational constructor specification is well posed: each of the 20 supported pairs determines the admissible state, except lambda = nu = 0)', mc)
+    if not mc.ok:
+        raise C.ToolError('MC_Elastic failed\n' + mc.out[-2000:])
+    nob = C.run_tlaps('Elastic_proofs', deps=('Elastic',))
+    chk.layer('S.proofs', tlaps_obligations_proved=nob, note='Elastic_proofs.tla: uniqueness of the admissible state for the seven modulus pairs with linear defining relations, for ALL integers (tlapm, SMT); '
+              'all twenty pairs exhaustively on mu in 1..12, lambda in 0..12, Poisson-ratio scale 1 and 10 by MC_Elastic')
     out = M.run(['exact', 'real'], 2000 if tier == 'quick' else 60000)
     # fluid events ride along in the same trace; only elastic classes are reported here
     out2 = dict(out)
